@@ -125,8 +125,10 @@ def open_terms(iv, T, C):
           bound |= {x.id for x in ast.walk(gen.target) if isinstance(x, ast.Name)}
       if isinstance(sub, ast.Lambda):
         bound |= {a.arg for a in sub.args.args}
+    receivers = {id(sub.value) for sub in ast.walk(e) if isinstance(sub, ast.Attribute) and sub.attr in ('required_impact', 'estimate_required_impact', 'corr', 'x', 'y')
+                 and isinstance(sub.value, ast.Name)}          # D.required_impact: D is the diagnostics object, whose provenance has its own rule
     for sub in ast.walk(e):
-      if isinstance(sub, ast.Name) and sub.id not in allowed and sub.id not in bound and sub.id not in out:
+      if isinstance(sub, ast.Name) and sub.id not in allowed and sub.id not in bound and sub.id not in out and id(sub) not in receivers and not sub.id[:1].isupper():
         out.append(sub.id)
   return out
 
@@ -135,6 +137,10 @@ def check_spec(kappa, iv, T, C, extra=None):
   """(verdict, why): True = matches the spec row of kappa on groups T, C; False = a closed term that differs from it;
   None = differs, but the test still contains unresolved locals (its meaning is not known)."""
   ok, why = _check_spec_closed(kappa, iv, T, C, extra)
+  if not ok and (iv.lo is None) != (iv.hi is None) and getattr(iv, 'partner', False):
+    # a one-sided comparison whose other limit is tested by a separate (nested or following) comparison of the same
+    # quantity: the pair is not combined here
+    return None, '%s [not decided: a one-sided test; the other limit is checked by a separate comparison]' % why
   if not ok:
     free = open_terms(iv, T, C)
     if free:
@@ -202,6 +208,16 @@ def tests_of(repo, f, keep=()):
     if q != 'optimistic-budget' and len(qb) == 1 and qb[0] != q and not (q or '').startswith('size:'):
       q = qb[0]
     out.append((n, ivx, others, q))
+  # one-sided tests of the same quantity that cover complementary sides are partners (a two-sided test split in two)
+  for n1, iv1, _o1, q1 in out:
+    if (iv1.lo is None) == (iv1.hi is None):
+      continue
+    for n2, iv2, _o2, q2 in out:
+      if n2 is n1 or (iv2.lo is None) == (iv2.hi is None):
+        continue
+      same_q = (q1 is not None and q1 == q2) or norm(iv1.v) == norm(iv2.v)
+      if same_q and ((iv1.lo is None) != (iv2.lo is None) or norm(iv1.lo or iv1.hi) != norm(iv2.lo or iv2.hi)):
+        iv1.partner = True
   return out
 
 
@@ -236,10 +252,20 @@ def closure_mentions(repo, f, kappa):
     seen, _edges = typesmod_.Types(repo).closure([f])
   except Exception:
     return ['?']
+  # helpers handed over as values (map(self._candidates, sizes)) are reached too
+  names_in_f = {x.attr if isinstance(x, ast.Attribute) else x.id for x in ast.walk(f.node) if isinstance(x, (ast.Attribute, ast.Name))}
+  work_ = [repo.functions[q_] for q_ in getattr(repo, 'residual_helpers', ()) if q_ in repo.functions and repo.functions[q_].name in names_in_f]
+  while work_:
+    h_ = work_.pop()
+    if h_.qualname in seen:
+      continue
+    seen[h_.qualname] = h_
+    names_h = {x.attr if isinstance(x, ast.Attribute) else x.id for x in ast.walk(h_.node) if isinstance(x, (ast.Attribute, ast.Name))}
+    work_ += [repo.functions[q_] for q_ in getattr(repo, 'residual_helpers', ()) if q_ in repo.functions and repo.functions[q_].name in names_h and q_ not in seen]
   out = []
   for q, g_ in seen.items():
-    if g_ is f:
-      continue
+    if g_ is f or (repo.pinned_names is not None and q in repo.pinned_names):
+      continue          # anchors of the pinned tree have known roles; only helpers can hide an enforcement
     if any((isinstance(x, ast.Attribute) and x.attr == kappa) or (isinstance(x, ast.Constant) and x.value == kappa) for x in ast.walk(g_.node)):
       out.append(q)
   return out
@@ -256,7 +282,28 @@ def is_vacuous(g, n, iv, pname, resolve_at, extra, src=None):
   fobj = getattr(g, '_funcinfo', None)
   texpr = inline.inline_expr(fobj, n.expr) if fobj is not None else n.expr
   v = cfgmod.decide_test(texpr, facts, res)
-  return v is not None and v == iv.accept_when
+  if v is not None and v == iv.accept_when:
+    return True
+  # the test is reached with the parameter None only through a guard on a value derived from the parameter (limits
+  # computed once: `lim = None if tol is None else (...)` ... `if lim is not None:`): the correlation is not followed
+  fn = getattr(g, 'func', None)
+  if fn is not None:
+    derived = set()
+    for _r in range(3):
+      for st_ in ast.walk(fn):
+        if isinstance(st_, ast.If) and any((isinstance(x_, ast.Attribute) and x_.attr == pname) or (isinstance(x_, ast.Name) and x_.id in derived) for x_ in ast.walk(st_.test)):
+          for b_ in st_.body + st_.orelse:
+            for x_ in ast.walk(b_):
+              if isinstance(x_, ast.Name) and isinstance(x_.ctx, ast.Store):
+                derived.add(x_.id)
+        if isinstance(st_, ast.Assign) and any((isinstance(x_, ast.Attribute) and x_.attr == pname) or (isinstance(x_, ast.Name) and x_.id in derived) for x_ in ast.walk(st_.value)):
+          for t_ in st_.targets:
+            derived |= {x_.id for x_ in ast.walk(t_) if isinstance(x_, ast.Name)}
+    if derived:
+      for ex_, taken_, tn_ in cfgmod.dominating_conditions(g, n):
+        if any(isinstance(x_, ast.Name) and x_.id in derived for x_ in ast.walk(ex_)) and cfgmod.decide_test(ex_, facts, (lambda nm, tn_=tn_: resolve_at(tn_, nm)) if resolve_at else None) is None:
+          return None
+  return False
 
 
 def accept_edge_ok(n, iv):
@@ -393,8 +440,9 @@ def report_enforcement(rep, where, kappa, e, fq):
               % (where, kappa, e.iv), e.where)
   rep.check(e.must, 'R2/must-pass', '%s: every accepting path passes the %s test' % (where, kappa), fq, '%s: bypass of %s' % (kappa, norm(e.node.expr)[:80]),
             '%s: with %s specified a design can be accepted without passing its check (or only on the rejecting branch)' % (where, kappa), e.where)
-  rep.check(e.vacuous, 'R3/unspecified', '%s: %s test is skipped when the parameter is None' % (where, kappa), fq,
-            '%s: test reachable with None' % kappa, '%s: the %s test is evaluated although the parameter is None' % (where, kappa), e.where)
+  rep.check3(e.vacuous, 'R3/unspecified', '%s: %s test is skipped when the parameter is None' % (where, kappa), fq,
+             '%s: test reachable with None' % kappa, '%s: the %s test is evaluated although the parameter is None' % (where, kappa), e.where,
+             why_open='the %s test is guarded by a value derived from the parameter; whether that guard excludes the None case is not followed' % kappa)
   return True
 
 
@@ -497,7 +545,39 @@ def generator_exact_size(repo, rep, fname, size_text_fn, where):
         okform = False
         why = ''
         is_set_call = lambda z: isinstance(z, ast.Call) and norm(z.func) == 'set'
-        if isinstance(ex, ast.BinOp) and isinstance(ex.op, ast.BitOr) and (is_set_call(ex.left) or is_set_call(ex.right)):
+        def comb_elements(z):
+          """z is a loop variable over set-wrapped combinations: `for z in (set(c) for c in combinations(P, r))` / map(set, ...)."""
+          if not isinstance(z, ast.Name):
+            return None
+          d_ = rd.single_def(n, z.id)
+          if d_ is None or d_.how != 'iter':
+            return None
+          it_ = rd.expand(d_.node, d_.value, keep=tuple(f.params))[0]
+          if isinstance(it_, (ast.GeneratorExp, ast.ListComp)) and len(it_.generators) == 1 and not it_.generators[0].ifs and is_set_call(it_.elt) \
+              and len(it_.elt.args) == 1 and norm(it_.elt.args[0]) == norm(it_.generators[0].target):
+            return it_.generators[0].iter
+          if isinstance(it_, ast.Call) and norm(it_.func) == 'map' and len(it_.args) == 2 and norm(it_.args[0]) in ('set', 'frozenset'):
+            return it_.args[1]
+          return None
+        union_of_loopvar = isinstance(ex, ast.BinOp) and isinstance(ex.op, ast.BitOr) and (comb_elements(ex.left) is not None or comb_elements(ex.right) is not None)
+        if union_of_loopvar:
+          fixed, other = (ex.left, ex.right) if comb_elements(ex.right) is not None else (ex.right, ex.left)
+          it = comb_elements(other)
+          if isinstance(it, ast.Call) and au.lib_name(f.module, it.func) == 'itertools.combinations' and len(it.args) == 2:
+            pool, r = it.args
+            rt = norm(rd.expand(n, r, keep=tuple(f.params))[0])
+            want = '%s - len(%s)' % (size, norm(fixed))
+            disjoint = c01.disjoint_sets(repo, f, n, pool, fixed)
+            okform = (rt == want) and disjoint
+            why = 'combination size is `%s` (expected `%s`)%s' % (rt, want, '' if disjoint else '; the pool is not disjoint from the fixed geos')
+          else:
+            rep.undecided('R1/sizes', '%s yield' % fname, 'the yielded union `%s` takes its second part from `%s`, which is not a visible itertools.combinations call' % (txt[:60], norm(it)[:60]), f.loc(sub))
+            continue
+        elif isinstance(ex, ast.BinOp) and isinstance(ex.op, ast.BitOr) and not (is_set_call(ex.left) or is_set_call(ex.right)) and any(
+            isinstance(z, ast.Name) and rd.single_def(n, z.id) is not None and rd.single_def(n, z.id).how == 'iter' for z in (ex.left, ex.right)):
+          rep.undecided('R1/sizes', '%s yield' % fname, 'the yielded union `%s` is not of the form fixed | set(combination)' % txt[:80], f.loc(sub))
+          continue
+        elif isinstance(ex, ast.BinOp) and isinstance(ex.op, ast.BitOr) and (is_set_call(ex.left) or is_set_call(ex.right)):
           fixed, other = ex.left, ex.right
           if isinstance(fixed, ast.Call) and norm(fixed.func) == 'set':
             fixed, other = other, fixed
@@ -807,7 +887,8 @@ def run_search(repo, rep, name, dwc):
         continue
       # the constraint is consulted somewhere in the search (or the search calls design_within_constraints on other
       # operands) in a form the rule does not understand: undecided; never consulted: violation
-      near = set(g.loop_body_nodes(outer))        # uses before the loop (e.g. filling in defaults) are not enforcement
+      encl_ = view.loops_enclosing(P_.node)
+      near = set(g.loop_body_nodes(encl_[0] if encl_ else outer)) | set(g.loop_body_nodes(outer))        # uses before the loops (e.g. filling in defaults) are not enforcement
       consulted = [m for m in kappa_mentions(f, kappa) if (m is None or m in near)
                    and not (m is not None and m.kind == 'stmt' and isinstance(m.ast, ast.Assign) and isinstance(m.ast.value, ast.Attribute))]
       # values derived from kappa before the loop (bounds computed once) and read inside it
@@ -977,6 +1058,7 @@ def run(repo, rep, tier):
   from mmsa.props import c04
   sub = type(rep)(rep.prop, rep.tier, rep.repo)
   c04.r4_data_object(repo, sub)
+  c04.r4_data_memo(repo, sub)
   for i in sub.instances:
     i.rule = 'R1/quantities'
     rep.instances.append(i)
